@@ -793,4 +793,5 @@ UNITS = UNITS + C09comb.UNITS      # combinators and ParseState.parse against th
 from . import C09readers     # noqa: E402
 UNITS = UNITS + C09readers.UNITS   # tree readers: safety for every tree shape the grammar allows, modular over the reader methods
 DATA = DATA + C09readers.DATA
+PROBES = globals().get('PROBES', []) + C09readers.PROBES
 TRUSTED = TRUSTED + C09readers.TRUSTED
